@@ -274,7 +274,7 @@ def decOperandN (r : Nat) (j : Json) : J.R (OperandN Int Int r) := do
 /-- one public operation of the N-D model; `r` = number of square taxa axes -/
 def opNdStep : J.Op := fun j => do
   let r ← J.field j "r" J.nat
-  let drops ← J.fieldD j "pure_drops_other" J.bool true
+  let drops ← J.fieldD j "pure_drops_other" J.bool false
   let sch : LabelMatN.SchN := { pureDropsOther := drops }
   let s ← J.field j "st" (decStN r)
   let op ← J.field j "do" pure
